@@ -511,7 +511,7 @@ func (c *EWCase) Run() string {
 	}
 	inexact := (c.Fam == "arith" && opInexact(c.Op, d)) || (c.Fam == "unary" && unopInexact(c.Op, d)) || (c.Mode == "incr" && d.IsFloat() && false)
 	eq := bitEqVal
-	if c.Fam == "arith" || c.Fam == "unary" {
+	if c.Fam == "arith" || (c.Fam == "unary" && unopInexact(c.Op, d)) {
 		eq = eqVal // -0 vs +0 are the same value of an arithmetic result
 	}
 	if inexact {
